@@ -265,7 +265,33 @@ EXTERNAL_ROOTS = {
 }
 
 
+def size_threshold(test):
+    """the largest numeric constant an `if` test compares a length / size against (len(x), x.size, x.shape[0], np.size(x)), or None"""
+    best = None
+    for node in ast.walk(test):
+        if not isinstance(node, ast.Compare):
+            continue
+        sides = [node.left] + list(node.comparators)
+        def is_size(e):
+            if isinstance(e, ast.Call) and isinstance(e.func, ast.Name) and e.func.id == 'len':
+                return True
+            if isinstance(e, ast.Call) and isinstance(e.func, ast.Attribute) and e.func.attr in ('size', 'count_nonzero'):
+                return True
+            if isinstance(e, ast.Attribute) and e.attr == 'size':
+                return True
+            if isinstance(e, ast.Subscript) and isinstance(e.value, ast.Attribute) and e.value.attr == 'shape':
+                return True
+            return False
+        if any(is_size(e) for e in sides):
+            for e in sides:
+                if isinstance(e, ast.Constant) and isinstance(e.value, (int, float)) and not isinstance(e.value, bool):
+                    best = e.value if best is None else max(best, e.value)
+    return best
+
+
 class Interp:
+    arms = {}       # id(If node) -> [node, then-arm reached, else-arm reached, function]
+
     MAX_DEPTH = 40
     current = None
 
@@ -553,11 +579,16 @@ class Interp:
 
     def st_If(self, st, frame):
         c = self.truth(self.eval(st.test, frame), st.test)
+        # which arms of which `if` the scenarios reached (class-level: accumulated over every interpretation of a check run)
+        taken = Interp.arms.setdefault(id(st), [st, False, False, self.call_stack[-1] if self.call_stack else '?'])
         if c is True:
+            taken[1] = True
             self.exec_block(st.body, frame)
         elif c is False:
+            taken[2] = True
             self.exec_block(st.orelse, frame)
         else:
+            taken[1] = taken[2] = True
             self.guarded_if(c, st, frame)
 
     def guarded_if(self, f, st, frame):
